@@ -119,10 +119,19 @@ def extract_save(tree):
         mem = []
 
         def plain_assign(st):
+            """nodes["m"] = matrix.a   |   nodes["m"] = () if matrix.a is None else matrix.a"""
             need(isinstance(st, ast.Assign) and len(st.targets) == 1 and isinstance(st.targets[0], ast.Subscript)
-                 and is_name(st.targets[0].value, "nodes") and is_attr(st.value, "matrix"),
+                 and is_name(st.targets[0].value, "nodes"),
                  f"save_npz: unsupported statement in class branch: {ast.unparse(st)}")
-            return sconst(st.targets[0].slice), st.value.attr
+            v = st.value
+            if is_attr(v, "matrix"):
+                return sconst(st.targets[0].slice), v.attr, "WPlain"
+            ok = (isinstance(v, ast.IfExp) and isinstance(v.body, ast.Tuple) and not v.body.elts and is_attr(v.orelse, "matrix")
+                  and isinstance(v.test, ast.Compare) and len(v.test.ops) == 1 and isinstance(v.test.ops[0], ast.Is)
+                  and is_attr(v.test.left, "matrix", v.orelse.attr) and isinstance(v.test.comparators[0], ast.Constant)
+                  and v.test.comparators[0].value is None)
+            need(ok, f"save_npz: unsupported member value {ast.unparse(v)}")
+            return sconst(st.targets[0].slice), v.orelse.attr, "WNoneAsEmpty"
         for s in node.body:
             if isinstance(s, ast.If):
                 # if matrix.a is not None: nodes["m"] = matrix.a
@@ -131,12 +140,11 @@ def extract_save(tree):
                      and is_attr(t2.left, "matrix") and isinstance(t2.comparators[0], ast.Constant)
                      and t2.comparators[0].value is None and not s.orelse and len(s.body) == 1,
                      f"save_npz: unsupported guard in class branch: {ast.unparse(s)[:80]}")
-                m, a = plain_assign(s.body[0])
-                need(a == t2.left.attr, "save_npz: the guard tests another attribute than the one it writes")
-                mem.append((m, a, True))
+                m, a, mode = plain_assign(s.body[0])
+                need(a == t2.left.attr and mode == "WPlain", "save_npz: unsupported guarded member write")
+                mem.append((m, a, "WIfNotNone"))
             else:
-                m, a = plain_assign(s)
-                mem.append((m, a, False))
+                mem.append(plain_assign(s))
         branches.append((test, mem))
         if not node.orelse:
             node = None
@@ -236,11 +244,26 @@ def extract_load(tree):
         reads, var2mem = [], {}
         need(t.body and isinstance(t.body[-1], ast.Return), "load_npz: try-block does not end in return")
         for s in t.body[:-1]:
+            if isinstance(s, ast.If):
+                # if v.size == 0: v = None     (directly after the read of v)
+                tt = s.test
+                ok = (isinstance(tt, ast.Compare) and len(tt.ops) == 1 and isinstance(tt.ops[0], ast.Eq)
+                      and isinstance(tt.left, ast.Attribute) and tt.left.attr == "size" and isinstance(tt.left.value, ast.Name)
+                      and isinstance(tt.comparators[0], ast.Constant) and tt.comparators[0].value == 0
+                      and not s.orelse and len(s.body) == 1 and isinstance(s.body[0], ast.Assign)
+                      and len(s.body[0].targets) == 1 and is_name(s.body[0].targets[0], tt.left.value.id)
+                      and isinstance(s.body[0].value, ast.Constant) and s.body[0].value.value is None)
+                need(ok, f"load_npz: unsupported if-statement {ast.unparse(s)[:80]}")
+                v = tt.left.value.id
+                need(reads and var2mem.get(v) == reads[-1][0] and reads[-1][1] == "RPlain",
+                     "load_npz: the empty-to-None mapping does not follow the read of its variable")
+                reads[-1] = (reads[-1][0], "REmptyAsNone")
+                continue
             need(isinstance(s, ast.Assign) and len(s.targets) == 1 and isinstance(s.targets[0], ast.Name),
                  f"load_npz: unsupported statement {ast.unparse(s)}")
             m, conv, optional = read_expr(s.value)
             need(conv == EXPECTED_CONV.get(m, "plain"), f"load_npz: member {m} is read with conversion {conv}")
-            reads.append((m, optional))
+            reads.append((m, "ROptionalNone" if optional else "RPlain"))
             var2mem[s.targets[0].id] = m
         call = t.body[-1].value
         need(isinstance(call, ast.Call) and isinstance(call.func, ast.Name) and call.func.id in KLASSES,
@@ -512,11 +535,13 @@ def to_coq(facts, digest):
     o.append("")
     o.append("(* save_npz: member name -> attribute of `matrix`, written for every class *)")
     o.append(f"Definition save_base : list (string * string) := {cpairs(sv['base'])}.")
-    o.append("(* save_npz: the if/elif chain; the first test that holds adds its members.  The boolean of a member says")
-    o.append("   that it is written only `if matrix.<attr> is not None` *)")
-    o.append("Definition save_branches : list (cls_test * list (string * string * bool)) :=")
+    o.append("(* how a member is written: WPlain `nodes[m] = matrix.a`; WIfNotNone `if matrix.a is not None: nodes[m] = matrix.a`;")
+    o.append("   WNoneAsEmpty `nodes[m] = () if matrix.a is None else matrix.a` *)")
+    o.append("Inductive write_mode := WPlain | WIfNotNone | WNoneAsEmpty.")
+    o.append("(* save_npz: the if/elif chain; the first test that holds adds its members *)")
+    o.append("Definition save_branches : list (cls_test * list (string * string * write_mode)) :=")
     o.append("  " + clist(sv["branches"], lambda b: f"({b[0][0]} K{b[0][1]}, "
-             + clist(b[1], lambda t: f"({cstr(t[0])}, {cstr(t[1])}, {cbool(t[2])})") + ")") + ".")
+             + clist(b[1], lambda t: f"({cstr(t[0])}, {cstr(t[1])}, {t[2]})") + ")") + ".")
     o.append("(* allow_pickle of np.savez / np.savez_compressed (numpy's default when not passed) *)")
     o.append(f"Definition save_allow_pickle : bool := {cbool(sv['allow_pickle'])}.")
     o.append("")
@@ -525,10 +550,13 @@ def to_coq(facts, digest):
     o.append("(* `if fp.zip.testzip() is not None: raise E(...)` before any member is read: Some E, else None *)")
     o.append("Definition load_testzip : option string := "
              + ("None" if ld["testzip"] is None else f"Some {cstr(ld['testzip'])}") + ".")
+    o.append("(* how a member is read: RPlain `v = fp[m]`; ROptionalNone `v = fp[m] if m in fp else None`;")
+    o.append("   REmptyAsNone `v = fp[m]` followed by `if v.size == 0: v = None` *)")
+    o.append("Inductive read_mode := RPlain | ROptionalNone | REmptyAsNone.")
     o.append("Inductive on_caught := Pass | RaiseExc (e : string).")
     o.append("Record attempt := mkAttempt {")
     o.append("  at_class : klass;                       (* constructor called *)")
-    o.append("  at_reads : list (string * bool);        (* members read, in order; true: `fp[m] if m in fp else None` *)")
+    o.append("  at_reads : list (string * read_mode);   (* members read, in order *)")
     o.append("  at_args : list (string * string);       (* constructor parameter -> member *)")
     o.append("  at_flags : list (string * bool);        (* constant boolean keyword arguments *)")
     o.append("  at_caught : string;                     (* exception class of the handler *)")
@@ -537,7 +565,7 @@ def to_coq(facts, digest):
     items = []
     for a in ld["attempts"]:
         act = "Pass" if a["action"][0] == "Pass" else f"RaiseExc {cstr(a['action'][1])}"
-        items.append(f"mkAttempt K{a['class']} {clist(a['reads'], lambda r: f"({cstr(r[0])}, {cbool(r[1])})")}\n      {cpairs(a['args'])}\n      "
+        items.append(f"mkAttempt K{a['class']} {clist(a['reads'], lambda r: f"({cstr(r[0])}, {r[1]})")}\n      {cpairs(a['args'])}\n      "
                      + clist(a["flags"], lambda p: f"({cstr(p[0])}, {cbool(p[1])})") + f" {cstr(a['caught'])} ({act})")
     o.append("  [ " + ";\n    ".join(items) + " ].")
     o.append("")
